@@ -1,12 +1,155 @@
+/-
+  C08 — PROPERTY THEOREMS.
+
+  Property: "Each memory and string function of the bundled libc returns the
+  result its standard definition prescribes (value, sign, or pointer offset)
+  and leaves the destination bytes the definition prescribes.  It reads and
+  writes no byte outside the ranges the definition allows, for every content,
+  length (including 0), alignment and, for memmove, overlap."
+
+  Reading the statements.  `m : Mem` is ONE partial memory shared by all
+  arguments; every theorem quantifies over all of it, all addresses (hence all
+  alignments and all relative positions) and all byte contents.
+    * `Holds m a l`   — the cells a, a+1, … contain the list `l`
+    * `Mapped m a n`  — n cells at a exist;  `CStr m a l` — `l` then NUL, no NUL in `l`
+    * a result `some …` means: no fault.  Since the hypotheses only say that the
+      ranges named in them are mapped, the function never touches a cell
+      outside those ranges (it would fault in the memory where nothing else is
+      mapped) — this is the "reads and writes no byte outside" clause;
+    * `SameOutside m m' d n` — nothing outside `[d, d+n)` was modified.
+  The ISO/POSIX definitions are stated on lists: `l = p ++ c :: r` with `c ∉ p`
+  says "the first occurrence of `c` in `l` is at index `p.length`", etc.
+  `fuel` is the model's bound for "until NUL" loops; every theorem says how
+  much is enough (string length + 1 or + 2).
+-/
 import IgrisModel.C08.Lemmas
 namespace Igris.C08
 open Igris.Proto
 
-/-- placeholder while the machinery is brought up -/
-theorem wr_rd_same (m m' : Mem) (a : Ptr) (v : Byte) (h : wr m a v = some m') : rd m' a = some v := by
-  unfold wr at h
-  split at h
-  · cases h; simp [rd]
-  · cases h
+/-! ### memset -/
+
+/-- memset fills exactly `[dest, dest+n)` with `(unsigned char)c`, returns `dest` -/
+theorem memset_spec (m : Mem) (dest : Nat) (c : Int) (n : Nat) (h : Mapped m dest n) :
+    ∃ m', memset m dest c n = some (m', dest) ∧ Holds m' dest (List.replicate n (toChar c)) ∧
+      SameOutside m m' dest n := by
+  obtain ⟨m', e, hh, ho, _⟩ := memsetLoop_spec (toChar c) n m dest h
+  exact ⟨m', by simp [memset, e], hh, ho⟩
+
+/-! ### memchr / memrchr -/
+
+/-- first occurrence: `l = p ++ d :: r`, `d ∉ p` ⇒ pointer to index `|p|` -/
+theorem memchr_found (m : Mem) (s : Nat) (c : Int) (p r : List Byte)
+    (hl : Holds m s (p ++ toChar c :: r)) (hp : toChar c ∉ p) :
+    memchr m s c (p ++ toChar c :: r).length = some (some (s + p.length)) := by
+  have : p ++ toChar c :: r = (p ++ [toChar c]) ++ r := by simp
+  rw [this, holds_append] at hl
+  exact memchrLoop_found m _ p s _ hl.1 hp (by simp)
+
+/-- no occurrence in the `n` bytes ⇒ NULL (for `n = 0` too) -/
+theorem memchr_absent (m : Mem) (s : Nat) (c : Int) (l : List Byte)
+    (hl : Holds m s l) (hc : toChar c ∉ l) : memchr m s c l.length = some none :=
+  memchrLoop_absent m _ l s hl hc
+
+/-- C11 7.24.5.1: memchr behaves as if it read sequentially and stopped at the
+first match — `n` may exceed the object when a match exists; only `p ++ [d]`
+needs to be mapped -/
+theorem memchr_stops_at_first_match (m : Mem) (s : Nat) (c : Int) (p : List Byte) (n : Nat)
+    (hl : Holds m s (p ++ [toChar c])) (hp : toChar c ∉ p) (hn : p.length < n) :
+    memchr m s c n = some (some (s + p.length)) :=
+  memchrLoop_found m _ p s n hl hp hn
+
+/-- last occurrence: `l = p ++ d :: r`, `d ∉ r` ⇒ pointer to index `|p|` -/
+theorem memrchr_found (m : Mem) (s : Nat) (c : Int) (p r : List Byte)
+    (hl : Holds m s (p ++ toChar c :: r)) (hr : toChar c ∉ r) :
+    memrchr m s c (p ++ toChar c :: r).length = some (some (s + p.length)) := by
+  have e : (p ++ toChar c :: r).length = p.length + 1 + r.length := by simp; omega
+  unfold memrchr
+  rw [e]
+  apply memrchrLoop_found m _ _ s hl p.length r.length
+  · simp
+  · simp; omega
+  · intro i h1 h2 h3
+    have : (p ++ toChar c :: r)[i]? = r[i - p.length - 1]? := by
+      rw [List.getElem?_append_right (by omega)]
+      obtain ⟨k, hk⟩ : ∃ k, i - p.length = k + 1 := ⟨i - p.length - 1, by omega⟩
+      rw [hk]; simp
+    rw [this] at h3
+    exact hr (List.mem_of_getElem? h3)
+
+/-- no occurrence ⇒ NULL; with `l = []` this is the `n == 0` case, which reads nothing -/
+theorem memrchr_absent (m : Mem) (s : Nat) (c : Int) (l : List Byte)
+    (hl : Holds m s l) (hc : toChar c ∉ l) : memrchr m s c l.length = some none := by
+  apply memrchrLoop_absent m _ l s hl l.length (Nat.le_refl _)
+  intro i _ h
+  exact hc (List.mem_of_getElem? h)
+
+/-- `memrchr(s, c, 0)` on a zero-sized object (nothing mapped at all) is NULL, no access -/
+theorem memrchr_zero (s : Nat) (c : Int) : memrchr (fun _ => none) s c 0 = some none := rfl
+
+/-- historical (before `fix: memrchr with n == 0`): the do-while form read
+`s[-1]` — in a memory where only `s[0]` exists, `n = 0` faults -/
+theorem memrchrOrig_n0_witness :
+    memrchrOrig (ofBufs [(8, [1#8])]) 8 0 0 100 = none := by decide
+
+/-! ### memcmp -/
+
+/-- equal blocks ⇒ 0 (for `n = 0` too: nothing is read) -/
+theorem memcmp_equal (m : Mem) (d s : Nat) (l : List Byte) (hd : Holds m d l) (hs : Holds m s l) :
+    memcmp m d s l.length = some 0 := by
+  unfold memcmp
+  split
+  · rfl
+  · next h => exact memcmpLoop_same m l _ d s (by omega) hd hs
+
+/-- first differing pair `x ≠ y` after a common prefix `p` ⇒ the result is
+`(unsigned char)x - (unsigned char)y`, so its sign is that of the first
+difference; the bytes after it are not even required to exist -/
+theorem memcmp_first_difference (m : Mem) (d s : Nat) (p : List Byte) (x y : Byte) (n : Nat)
+    (hd : Holds m d (p ++ [x])) (hs : Holds m s (p ++ [y])) (hxy : x ≠ y) (hn : p.length < n) :
+    memcmp m d s n = some (ucInt x - ucInt y) := by
+  unfold memcmp
+  rw [if_neg (by omega)]
+  exact memcmpLoop_diff m p x y _ d s (by omega) hd hs hxy
+
+/-- the sign is the order of the two bytes as unsigned values -/
+theorem ucInt_sub_sign (x y : Byte) : (ucInt x - ucInt y < 0 ↔ x.toNat < y.toNat) ∧
+    (ucInt x - ucInt y = 0 ↔ x = y) := by
+  unfold ucInt
+  refine ⟨by omega, ?_⟩
+  constructor
+  · intro h; exact BitVec.eq_of_toNat_eq (by omega)
+  · intro h; subst h; omega
+
+/-! ### memcpy / memmove -/
+
+/-- ISO C memcpy (non-overlapping objects): the `n` source bytes arrive at
+`dst`, nothing outside `[dst, dst+n)` changes, `dst` is returned; holds on the
+byte path and on the word path alike (no alignment hypothesis) -/
+theorem memcpy_spec (m : Mem) (dst src : Nat) (data : List Byte)
+    (hs : Holds m src data) (hd : Mapped m dst data.length)
+    (hdis : Disjoint dst data.length src data.length) :
+    ∃ m', memcpy m dst src data.length = some (m', dst) ∧ Holds m' dst data ∧
+      SameOutside m m' dst data.length := by
+  obtain ⟨m', e, h⟩ := memcpy_fwd m dst src data.length
+    (by unfold Disjoint at hdis; omega) hs.mapped hd
+  exact ⟨m', e, h.done.holds hs, h.done.2⟩
+
+/-- what memmove's fall-through relies on: the forward copy (word loops
+included — each word is loaded before it is stored) is also correct for
+overlapping ranges as long as `dst ≤ src` -/
+theorem memcpy_forward_overlap (m : Mem) (dst src : Nat) (data : List Byte)
+    (hs : Holds m src data) (hd : Mapped m dst data.length) (hle : dst ≤ src) :
+    ∃ m', memcpy m dst src data.length = some (m', dst) ∧ Holds m' dst data ∧
+      SameOutside m m' dst data.length := by
+  obtain ⟨m', e, h⟩ := memcpy_fwd m dst src data.length (Or.inl hle) hs.mapped hd
+  exact ⟨m', e, h.done.holds hs, h.done.2⟩
+
+/-- memmove for EVERY relative position of source and destination -/
+theorem memmove_spec (m : Mem) (dst src : Nat) (data : List Byte)
+    (hs : Holds m src data) (hd : Mapped m dst data.length) :
+    ∃ m', memmove m dst src data.length = some (m', dst) ∧ Holds m' dst data ∧
+      SameOutside m m' dst data.length := by
+  obtain ⟨m', e, h⟩ := memmove_done m dst src data.length hs.mapped hd
+  exact ⟨m', e, h.holds hs, h.2⟩
 
 end Igris.C08
